@@ -9,7 +9,8 @@ package main
 // vh c02-child : executes cases from stdin; protocol on stdout, one line each:
 //                  "> id"          the case is about to run (flushed before it starts)
 //                  "= id {json}"   its result
-//                  "@ id text"     progress inside a case (graphs: "root op" about to run)
+//                the file -marker (shared memory) holds "id text": progress inside the running
+//                case (graphs: "root op" about to run); it survives the death of the child
 //                  "! id text"     watchdog: the case exceeded its CPU/wall limit (exit 86)
 //                  "# id text"     machinery problem (exit 3)
 
@@ -22,6 +23,7 @@ import (
 	"io"
 	"os"
 	"os/exec"
+	"path/filepath"
 	"regexp"
 	"runtime"
 	"runtime/debug"
@@ -109,7 +111,24 @@ func c02Child(args []string) error {
 	cpuMs := fs.Int64("cpu-ms", 2000, "default CPU limit per case")
 	stackMB := fs.Int("stack-mb", 0, "maximum goroutine stack (0 = Go default, 1 GB)")
 	memMB := fs.Uint64("mem-mb", 0, "address space limit (0 = none)")
+	lazyGC := fs.Bool("lazy-gc", false, "collect garbage only when the heap approaches 2 GB (small cases: the collector costs more than the cases)")
+	marker := fs.String("marker", "", "file shared with the supervisor: progress inside the running case (survives a fatal error)")
 	fs.Parse(args)
+	var mark []byte
+	if *marker != "" {
+		f, err := os.OpenFile(*marker, os.O_RDWR, 0)
+		if err != nil {
+			return err
+		}
+		if mark, err = syscall.Mmap(int(f.Fd()), 0, 256, syscall.PROT_READ|syscall.PROT_WRITE, syscall.MAP_SHARED); err != nil {
+			return err
+		}
+		f.Close()
+	}
+	if *lazyGC {
+		debug.SetGCPercent(-1)
+		debug.SetMemoryLimit(2 << 30)
+	}
 	if *memMB > 0 {
 		lim := syscall.Rlimit{Cur: *memMB << 20, Max: *memMB << 20}
 		syscall.Setrlimit(syscall.RLIMIT_AS, &lim)
@@ -132,11 +151,19 @@ func c02Child(args []string) error {
 	w := bufio.NewWriterSize(os.Stdout, 1<<16)
 	var curID, curStartCPU, curStartWall, curLimit atomic.Int64
 	curID.Store(-1)
-	go func() { // watchdog
+	go func() { // watchdog: notes when it first sees a case and how much CPU the process had used then
+		seen := int64(-1)
 		for {
 			time.Sleep(10 * time.Millisecond)
 			id := curID.Load()
 			if id < 0 {
+				seen = -1
+				continue
+			}
+			if id != seen {
+				seen = id
+				curStartCPU.Store(cpuMillis())
+				curStartWall.Store(time.Now().UnixMilli())
 				continue
 			}
 			cpu := cpuMillis() - curStartCPU.Load()
@@ -168,14 +195,12 @@ func c02Child(args []string) error {
 		w.Flush()
 		mu.Unlock()
 		curLimit.Store(lim)
-		curStartCPU.Store(cpuMillis())
-		curStartWall.Store(time.Now().UnixMilli())
 		curID.Store(h.ID)
 		c02Progress = func(at string) {
-			mu.Lock()
-			fmt.Fprintf(w, "@ %d %s\n", h.ID, at)
-			w.Flush()
-			mu.Unlock()
+			if mark != nil { // "id at\n", NUL padded
+				n := copy(mark[:255], fmt.Sprintf("%d %s\n", h.ID, at))
+				mark[n] = 0
+			}
 		}
 		res, err := c02Exec(*kind, raw)
 		curID.Store(-1)
@@ -282,6 +307,7 @@ type c02Summary struct {
 
 type c02Sup struct {
 	self    string
+	tmpdir  string // scratch directory (that of the output file)
 	kind    string
 	childAr []string
 	mu      sync.Mutex
@@ -310,7 +336,14 @@ func (s *c02Sup) runBatch(lines [][]byte) error {
 			}
 			byID[id] = l
 		}
-		cmd := exec.Command(s.self, append([]string{"c02-child"}, s.childAr...)...)
+		mf, err := os.CreateTemp(s.tmpdir, "c02-marker-*")
+		if err != nil {
+			return err
+		}
+		mf.Truncate(256)
+		mf.Close()
+		defer os.Remove(mf.Name())
+		cmd := exec.Command(s.self, append([]string{"c02-child", "-marker", mf.Name()}, s.childAr...)...)
 		cmd.Stdin = bytes.NewReader(bytes.Join(lines, nil))
 		stdout, err := cmd.StdoutPipe()
 		if err != nil {
@@ -325,7 +358,7 @@ func (s *c02Sup) runBatch(lines [][]byte) error {
 		br := bufio.NewReaderSize(stdout, 1<<20)
 		inflight := int64(-1)
 		done := 0 // number of cases of `lines` finished (result, hang or crash)
-		var hang, mach, at string
+		var hang, mach string
 		for {
 			line, err := br.ReadBytes('\n')
 			if len(line) > 2 {
@@ -339,9 +372,6 @@ func (s *c02Sup) runBatch(lines [][]byte) error {
 				switch line[0] {
 				case '>':
 					inflight = id
-					at = ""
-				case '@':
-					at = string(payload)
 				case '=':
 					inflight = -1
 					done++
@@ -384,6 +414,15 @@ func (s *c02Sup) runBatch(lines [][]byte) error {
 			return nil
 		}
 		// the case in flight killed the child (or was killed by the watchdog)
+		at := ""
+		if mb, err := os.ReadFile(mf.Name()); err == nil {
+			if i := bytes.IndexByte(mb, 0); i >= 0 {
+				mb = mb[:i]
+			}
+			if f := strings.SplitN(strings.TrimSpace(string(mb)), " ", 2); len(f) == 2 && f[0] == fmt.Sprint(inflight) {
+				at = f[1]
+			}
+		}
 		a := &c02Abnormal{ID: inflight, Exit: exit, At: at, Case: json.RawMessage(bytes.TrimSpace(byID[inflight]))}
 		if hang != "" && exit == 86 {
 			a.What, a.Detail = "hang", hang
@@ -447,6 +486,7 @@ func c02Run(args []string) error {
 	stackMB := fs.Int("stack-mb", 0, "")
 	memMB := fs.Uint64("mem-mb", 8192, "")
 	sample := fs.Int64("sample", 0, "copy every result whose id is a multiple of this to the output")
+	lazyGC := fs.Bool("lazy-gc", false, "")
 	fs.Parse(args)
 	self, err := os.Executable()
 	if err != nil {
@@ -475,11 +515,14 @@ func c02Run(args []string) error {
 	}
 	defer w.Close()
 	s := &c02Sup{self: self, kind: *kind, out: newNDWriter(w), sample: *sample}
+	if *out != "-" && *out != "" {
+		s.tmpdir = filepath.Dir(*out)
+	}
 	defer s.out.flush()
 	s.sum.Summary = true
 	s.sum.Cases = int64(len(lines))
 	s.sum.ByClass = map[string]int64{}
-	s.childAr = []string{"-kind", *kind, "-cpu-ms", fmt.Sprint(*cpuMs), "-stack-mb", fmt.Sprint(*stackMB), "-mem-mb", fmt.Sprint(*memMB)}
+	s.childAr = []string{"-kind", *kind, "-cpu-ms", fmt.Sprint(*cpuMs), "-stack-mb", fmt.Sprint(*stackMB), "-mem-mb", fmt.Sprint(*memMB), fmt.Sprintf("-lazy-gc=%v", *lazyGC)}
 	n := *par
 	if n <= 0 {
 		n = runtime.NumCPU()
